@@ -21,6 +21,8 @@ type Profile struct {
 	NilSub   bool // generate requests with absent optional sub-messages
 	Latency  bool // allow accepted signed-latency runs
 	Receipts bool
+	Hostile  bool // non-finite / huge coordinates, idle timeouts
+	IdleMs   []int
 }
 
 var baseWeights = map[Op]int{
@@ -43,7 +45,7 @@ func weights(over map[Op]int) map[Op]int {
 
 var opOrder = []Op{OpJoin, OpClose, OpEntityAdd, OpEntityDel, OpPose, OpCustom, OpTypeAdd, OpGetName, OpGetID, OpCompAdd, OpCompDel,
 	OpCompUpdate, OpCompList, OpSub, OpUnsub, OpPing, OpPingResp, OpAction, OpAsset, OpQuad, OpGround, OpRegion, OpDebug, OpReceipt,
-	OpLatency, OpUnknown, OpNoTS, OpTick}
+	OpLatency, OpUnknown, OpNoTS, OpTick, OpGarbage, OpText, OpBadTyped, OpBurstBad, OpBurstPing, OpSilence, OpStall, OpAbort}
 
 func (p Profile) opTable() []Op {
 	var t []Op
@@ -238,6 +240,36 @@ func (p Profile) genStep(t *rapid.T, conns int, table []Op) Step {
 		st.Sig = pick(t, "rsig", [][]byte{nil, {9}, {9, 9}})
 	case OpUnknown:
 		st.Count = pick(t, "utype", unknownTypes)
+	case OpGarbage:
+		switch uni(t, "garbage_kind", 4) {
+		case 0:
+			st.Raw = rapid.SliceOfN(rapid.Byte(), 0, 24).Draw(t, "garbage")
+		case 1:
+			st.Raw = []byte{0x08, 0x03} // a join request without timestamp
+		case 2:
+			st.Raw = []byte{0x08, 0x08, 0x12, 0x7f, 0x01} // truncated timestamp
+		default:
+			st.Raw = []byte{0xff, 0xff, 0xff, 0xff, 0xff, 0xff, 0xff, 0xff, 0xff, 0xff, 0x01}
+		}
+	case OpText:
+		st.Name = pick(t, "text", []string{"", "hello", "{\"type\":3}", "\x08\x03"})
+	case OpBadTyped:
+		st.Count = uint32(uni(t, "bad_kind", 4))
+	case OpBurstBad:
+		st.Count = uint32(pick(t, "burst_k", []int{1, 2, 7, 8, 9, 10, 16, 33, 64}))
+		st.Flag = int32(uni(t, "burst_kind", 4))
+		st.TNano = int32(uni(t, "burst_mix", 2))
+	case OpBurstPing:
+		st.Count = uint32(pick(t, "burst_k", []int{1, 2, 9, 64, 300}))
+	case OpSilence:
+		st.Count = uint32(pick(t, "silence_frames", []int{1, 3, 10, 30, 70, 140}))
+	}
+	if p.Hostile && (st.Op == OpQuad || st.Op == OpGround || st.Op == OpRegion) && uni(t, "hostile_floats", 3) == 0 {
+		for i := range st.F {
+			if uni(t, "hf_which", 3) == 0 {
+				st.F[i] = pick(t, "hf", []uint32{0x7fc00000, 0x7f800000, 0xff800000, math.Float32bits(3.4e38), math.Float32bits(-3.4e38), math.Float32bits(1e9), math.Float32bits(-1e9), math.Float32bits(1e-40), 0x80000000, math.Float32bits(5000)})
+			}
+		}
 	}
 	return st
 }
@@ -261,6 +293,9 @@ func (p Profile) GenScript(t *rapid.T) Script {
 	}
 	sc.Cfg.FrameMs = pick(t, "frame_ms", []int{1, 15, 15, 50, 100})
 	sc.Cfg.ReceiptCap = pick(t, "receipt_cap", []int{1, 2, 128})
+	if len(p.IdleMs) > 0 {
+		sc.Cfg.IdleMs = pick(t, "idle_ms", p.IdleMs)
+	}
 	table := p.opTable()
 	// most connections start by joining: the first creates a session,
 	// the others mostly join an existing one
